@@ -77,7 +77,7 @@ EXTRA = {
  "C10": ("; context-free calls on held foreign objects", " Objects implemented outside the module are consulted with a Context (reviewed exceptions: codecs, params subspace table)."),
  "C12": ("; loop-fresh decode targets over x/pnft", " Listings decode each token's metadata into a fresh variable."),
  "C14": ("; definite-write analysis of message entry points (receiver-reachable memory)", " ValidateBasic/GetSigners/GetSignBytes/Route/Type perform no definite write into memory reachable from the message (stores, map updates, append onto re-sliced message slices, in-place sorts, through module callees)."),
- "C15": ("; enumeration of Ante/PostDecorator implementers; write enumeration on handler call trees", " Every module type that can sit in an ante or post-handler chain moves no coins; handlers write no package variable or long-lived field (such writes survive a failed message)."),
+ "C15": ("; enumeration of Ante/PostDecorator implementers; write enumeration on handler call trees", " Every module type that can sit in an ante or post-handler chain moves no coins; no package variable or long-lived field is both written and read on the handlers' call trees (such writes survive a failed message)."),
  "C16": ("; who-may-call of the SDK address configuration", " No custom address verifier is installed and the account prefix is the constant panacea (the SDK's own format check defines a well-formed address)."),
  "C19": ("; dominance in InitChainer", " InitChainer stores the module manager's version map through the upgrade keeper before the modules' InitGenesis."),
  "C20": ("; non-persistent store keys", " The module's keepers receive no memory/transient store key (such stores are not versioned by query height)."),
